@@ -245,6 +245,65 @@ def rule_p4(ctx, F):
     ctx.floor("heap repairs after consuming from the root", len(fix), 2)
 
 
+def rule_range(ctx, F):
+    """R2: range restriction.  A match may start at a node only under the range licence (rooted
+    pattern: the node intersects the range; unrooted: its parent does), inside the containing range and
+    within max_start_depth — at both places where states are created; the intersection/containment
+    tests compare bytes and points on both sides; setters reject inverted ranges and map end 0 to MAX."""
+    fn = ctx.need_fn(F, "ts_query_cursor__advance", "R2")
+    if fn:
+        adds = [pt for pt, c in fn.calls() if callee_name(c) == "ts_query_cursor__add_state"]
+        ctx.floor("state creations in ts_query_cursor__advance", len(adds), 2)
+        ctx.gate("R2", fn, adds, [
+            ("a match starts only at a node inside the containing range", "node_within_containing_range", True),
+            ("…on a visible node", "self->on_visible_node", True),
+            ("a rooted pattern starts only at a node intersecting the range; an unrooted one only under a parent that does", [("node_intersects_range", True), ("parent_intersects_range", True)]),
+            ("…rooted ⇒ the node itself intersects", [("pattern->is_rooted", False), ("node_intersects_range", True)]),
+            ("…unrooted ⇒ not directly under an ERROR", [("pattern->is_rooted", True), ("parent_is_error", False)]),
+            ("the start depth is within max_start_depth", "start_depth <= self->max_start_depth", True),
+            ("the node carries the field the pattern's first step asks for", [("step->field", False), ("field_id == step->field", True)]),
+        ], accept_desc="starting a match at this node")
+        for nm, pat in (("node_intersects_range", "parent_intersects_range && range_intersects(&node_range, &self->included_range)"),
+                        ("node_within_containing_range", "range_within(&node_range, &self->containing_range)"),
+                        ("node_intersects_containing_range", "range_intersects(&node_range, &self->containing_range)")):
+            d = [x for i in fn.ids_named(nm) for x in fn.defs(i) if x is not None and x.get("k") != "uninit"]
+            if d and M(fn).match(pat, d[0]):
+                ctx.ok("R2", "advance:%s-definition" % nm, "%s = %s" % (nm, pat))
+            else:
+                ctx.bad("R2", "advance:%s-definition" % nm, "%s is no longer `%s` in ts_query_cursor__advance" % (nm, pat))
+        desc = [pt for pt, c in fn.calls() if callee_name(c) == "ts_tree_cursor_goto_first_child_internal"]
+        ctx.gate("R2", fn, desc, [("the walk descends only into nodes that intersect the containing range", "node_intersects_containing_range", True),
+                                  ("…and only if a match can start or continue below", "ts_query_cursor__should_descend(self, node_intersects_range)", True)], accept_desc="descending into the node")
+    for name, parts in (("range_intersects", ["a->end_byte > b->start_byte", "a->start_byte < b->end_byte", "point_gt(a->end_point, b->start_point)", "point_lt(a->start_point, b->end_point)"]),
+                        ("range_within", ["a->start_byte >= b->start_byte", "a->end_byte <= b->end_byte", "point_gte(a->start_point, b->start_point)", "point_lte(a->end_point, b->end_point)"])):
+        g = ctx.need_fn(F, name, "R2")
+        if not g:
+            continue
+        rets = [strip(e["e"]) for pt, e in g.points() if e.get("k") == "ret"]
+        atoms = []
+        for r in rets:
+            for c in conjuncts(r):
+                atoms += disjuncts(c)
+        m = M(g)
+        for p in parts:
+            key = "%s:tests:%s" % (name, p)
+            if any(m.match(p, a) for a in atoms):
+                ctx.ok("R2", key, "%s tests `%s`" % (name, p), nontrivial=False)
+            else:
+                ctx.bad("R2", key, "%s no longer tests `%s`: byte and point bounds must both hold on both sides" % (name, p))
+    for name, fld, kind in (("ts_query_cursor_set_byte_range", "included_range", "byte"), ("ts_query_cursor_set_containing_byte_range", "containing_range", "byte"),
+                            ("ts_query_cursor_set_point_range", "included_range", "point"), ("ts_query_cursor_set_containing_point_range", "containing_range", "point")):
+        g = ctx.need_fn(F, name, "R2")
+        if not g:
+            continue
+        st = [pt for pt, n in find(g, "self->%s.start_%s = start_%s" % (fld, kind, kind))] + [pt for pt, n in find(g, "self->%s.end_%s = end_%s" % (fld, kind, kind))]
+        if len(st) != 2:
+            ctx.bad("R2", name + ":stores-both-ends", "%s no longer stores both ends of %s" % (name, fld))
+            continue
+        bad_cond = "start_byte > end_byte" if kind == "byte" else "point_gt(start_point, end_point)"
+        ctx.gate("R2", g, st, [("an inverted range is rejected, not stored", bad_cond, False)], accept_desc="storing the range")
+
+
 def rule_rust(ctx):
     """Text predicates: each multi-chunk node text is assembled in a freshly cleared scratch buffer."""
     import rsrules
@@ -276,6 +335,7 @@ def run(ctx):
         rule_p2(ctx, F)
         rule_p3(ctx, F)
         rule_p4(ctx, F)
+        rule_range(ctx, F)
     rule_rust(ctx)
     return ctx.finish(
         "Pairing and field-coverage rules over query.c: every discard of a query state under capture-list-pool exhaustion is preceded by "
